@@ -184,6 +184,9 @@ func keyPath(p string) string {
 	toks := strings.Split(normPath(p), ">")
 	var out []string
 	for _, t := range toks {
+		if t != "" && strings.Trim(t, "0123456789") == "" {
+			t = "#" // key of a set / id-indexed map
+		}
 		if strings.HasSuffix(t, "[*]") {
 			cut := -1
 			for i, o := range out {
@@ -368,10 +371,16 @@ func mutationsAt(enc []byte, idx int) (path string, kind string, muts []mutation
 		ar("append-null", func(it []*rc.Node) []*rc.Node { return append(it, null()) })
 	case rc.Map:
 		np := len(n0.Items) / 2
+		structMap := isStructMap(n0)
 		for j := 0; j < np; j++ {
 			j := j
 			key := path + ">" + keyName(n0.Items[2*j])
-			tree("map/drop:"+keyName(n0.Items[2*j]), "drop-field", mValue, key, func(root *rc.Node, r rc.Ref) *rc.Node {
+			fam := "drop-field"
+			if !structMap {
+				// an entry of a set / id-indexed map, not a struct field
+				fam, key = "map-entry", ""
+			}
+			tree("map/drop:"+keyName(n0.Items[2*j]), fam, mValue, key, func(root *rc.Node, r rc.Ref) *rc.Node {
 				r.Node.Items = append(append([]*rc.Node{}, r.Node.Items[:2*j]...), r.Node.Items[2*j+2:]...)
 				return root
 			})
@@ -459,7 +468,11 @@ func mutationsAt(enc []byte, idx int) (path string, kind string, muts []mutation
 				sw("first-last", 0, np-1)
 			}
 		}
-		tree("map/empty", "drop-field", mValue, path+">*", func(root *rc.Node, r rc.Ref) *rc.Node {
+		emptyFam, emptyField := "drop-field", path+">*"
+		if !structMap {
+			emptyFam, emptyField = "map-entry", ""
+		}
+		tree("map/empty", emptyFam, mValue, emptyField, func(root *rc.Node, r rc.Ref) *rc.Node {
 			if np < 2 {
 				return nil
 			}
